@@ -911,12 +911,15 @@ def battery(ctx, chk, n_recipes, n_sp, focus=None):
             if st == "declined" and mode.startswith("reflect>"):
                 chk.add_program(recipe, "lazy>" + mode.split(">")[1])
         ctx.count("programs:sum-product")
-    n_extra = max(1, (n_recipes + n_sp) // 6)
+    n_extra = max(1, (n_recipes + n_sp) // 3)
     fams = list(X.FAMILIES)
     for k in range(n_extra):
         family = fams[k % len(fams)]
         subseed = rng.randrange(10 ** 9)
-        for mode in rng.sample(X.EXTRA_MODES, 2) + (["eager"] if k % 2 == 0 else []):
+        modes = rng.sample(X.EXTRA_MODES, 2) + (["eager"] if k % 2 == 0 else [])
+        if family == "subschain":       # the fusion rule is only reached where the term stays lazy
+            modes = ["normalize", rng.choice(["unfold", "normalize>eager", "reflect>optimizer", "reflect>normalize"])]
+        for mode in modes:
             chk.add_extra(family, subseed, mode)
         ctx.count("programs:extra")
     chk.flush()
